@@ -571,3 +571,7 @@ ALLOC_TEXT = (" E2, one arbitrary iteration of process_write_batch's allocation 
 PROPS["C05"]["level_text"] += ALLOC_TEXT
 PROPS["C09"]["level_text"] += ALLOC_TEXT
 PROPS["C05"]["outside"] = "the partition at whole-store quiescent points as an execution, leak-freedom over long runs"
+PROPS["C02"]["level_text"] += (" Drop (E2, every path): the TTL sweeper is stopped, then the write buffer is shut down (initiate_shutdown, then finish_shutdown which joins the workers after their "
+                               "final flush) BEFORE the counters are read into the metadata and the metadata is written; the device is shut down only after both.")
+PROPS["C02"]["functions"] += [PERSIST + "::drop"]
+PROPS["C02"]["outside"] = "crash images as executions, the worker's final-flush retry loop (write_buffer_worker), fsync placement inside DiskIO (C03/C09 io protocol obligations)"
